@@ -5,15 +5,18 @@ package gosym
 // verifConcurrently(f, g) runs f as thread 1 and then g as thread 2 on the same
 // state, recording for each thread its lock operations (sync.Mutex and
 // sync.RWMutex, identified by address) and its accesses to Go maps (identified
-// by the map object).  The interleaving is then made symbolic: every recorded
-// lock operation and the two accesses of a candidate pair get an integer
-// timestamp; program order within a thread, and mutual exclusion of critical
-// sections on the same mutex (unless both are read sections), constrain the
-// timestamps.  The assertion "the two accesses cannot coincide" is posed to
-// the SMT portfolio like any other assertion: unsat = ordered by locks in every
-// interleaving of these two traces; sat = a schedule in which a map is read or
-// iterated by one thread while the other writes it, which the Go runtime
-// answers with a fatal error.  The model (timestamps) is the schedule.
+// by the map object).  The interleaving is then made symbolic: for an access of
+// thread 1 and each conflicting access of thread 2 to the same map, integer
+// timestamps stand for the acquisitions of the locks each thread holds at its
+// access and for the thread's last critical section, closed before the access,
+// on every mutex the other thread holds there in a conflicting mode (two read
+// sections do not conflict); program order and "closed before the other thread
+// took the lock it still holds" constrain them (see predictRaces).  The
+// assertion "the two accesses cannot coincide" is posed to the SMT portfolio
+// like any other assertion: unsat = ordered by locks in every interleaving of
+// these two traces; sat = a schedule in which a map is read or iterated by one
+// thread while the other writes it, which the Go runtime answers with a fatal
+// error.  The model (timestamps) is the schedule.
 //
 // Trace-based: the two traces are those of the sequential run; an interleaving
 // that makes a thread take a different branch is outside the claim.
